@@ -32,7 +32,9 @@ RULE = ("(a) exhaustive cell grid: every ensemble of 0-3 members over {1,2,3,NaN
         "obs/weights on random dim subsets (weights possibly with an extra dim), shuffled coordinate order, values on the grid k/2 (|k|<=4), NaN "
         "injected into members (whole ensembles too), obs and weights, 1-3 increasing thresholds or a scalar, all request spellings, and a "
         "malformed stream (bad operator, threshold_dim clashes, decreasing thresholds, ensemble dim missing / in obs / named in the request); "
-        "(c) brier_score on probability grids k/8 with out-of-range and non-binary values injected, check_args on/off. A case is distinct by the "
+        "(c) brier_score on probability grids k/8 with out-of-range and non-binary values injected, check_args on/off; (d) defaults: every "
+        "subset of the optional arguments of brier_score_for_ensemble / brier_score omitted, in 9 / 8 configurations, against the exact oracle "
+        "at the documented defaults and against the call with the defaults written out. A case is distinct by the "
         "hash of (function, inputs, options) and non-trivial when at least one output cell is finite.")
 ASSUMPTIONS = ["thresholds are finite numbers (the documented contract: increasing, no NaN); a NaN threshold is modelled but not generated in lists"]
 TRUSTED = ["hand models in coq/model/C13.v (member counting as list folds, binary_discretise at tolerance 0, threshold dimension, guards): tied by correspondence only"]
@@ -41,7 +43,7 @@ OPS = {"ge": operator.ge, "gt": operator.gt, "le": operator.le, "lt": operator.l
 NAN = float("nan")
 INF = float("inf")
 # harness self-check (core.run_check): counters every complete run must have incremented, one per predicate family / input class
-EXPECT_COUNTS = ["corpus_cases", "brier_boundary_probes", "brier_dataset_probes", "oracle_probes", "dtype_probes", "infinite_member_probes",
+EXPECT_COUNTS = ["corpus_cases", "ens_defaults_calls", "brier_defaults_calls", "brier_boundary_probes", "brier_dataset_probes", "oracle_probes", "dtype_probes", "infinite_member_probes",
                  "large_ensemble_cells", "large_ensemble_infinite_member_cells", "cell_grid_points", "cell_grid_infinite_member",
                  "cell_grid_ties_member_eq_threshold", "cell_grid_single_valid_member", "cell_grid_no_valid_member",
                  "ens:ok", "ens:err:ValueError", "ens:weights", "ens:large_ensemble(>=33 members)", "ens:infinite_member", "ens:oracle_checked",
@@ -618,6 +620,131 @@ def poke(rng, da, v):
     return da
 
 
+# ------------------------------------------------------------------------------------------
+# documented defaults of the optional arguments (signature and docstring of brier_impl.py)
+ENS_DEFAULTS = {"reduce_dims": None, "preserve_dims": None, "weights": None, "fair_correction": True, "event_threshold_operator": "ge",
+                "threshold_dim": "threshold"}
+BRIER_DEFAULTS = {"reduce_dims": None, "preserve_dims": None, "weights": None, "check_args": True}
+
+
+def expected_dims(data_dims, cfg, extra=()):
+    """the dims rule: preserve_dims='all' keeps everything, a list keeps those; reduce_dims drops those; neither: everything is reduced"""
+    if cfg["preserve_dims"] is not None:
+        keep = list(data_dims) if cfg["preserve_dims"] == "all" else [d for d in data_dims if d in cfg["preserve_dims"]]
+    elif cfg["reduce_dims"] is not None:
+        keep = [d for d in data_dims if d not in cfg["reduce_dims"]]
+    else:
+        keep = []
+    return set(keep) | set(extra)
+
+
+def same_result(a, b):
+    return set(a.dims) == set(b.dims) and bool(np.array_equal(np.asarray(a, dtype=float), np.asarray(b.transpose(*a.dims), dtype=float), equal_nan=True))
+
+
+def defaults_probe(ctx):
+    """every optional argument of brier_score_for_ensemble and brier_score OMITTED vs written out: for a list of configurations (each
+    optional argument at its documented default and at another value) and EVERY subset of the optional arguments left out of the call,
+    the result must (1) have the dims of, and equal, the exact oracle evaluated with the DOCUMENTED default in place of every omitted
+    argument (fair_correction=True, operator.ge, threshold_dim='threshold', weights=None, reduce everything; check_args=True), and
+    (2) be identical to the call in which those defaults are written out.  A changed default in the signature, or a keyword that is
+    accepted but no longer forwarded, is invisible to calls that always pass (or never pass) the argument."""
+    P, _ = S()
+    idx = {"t": [0, 1, 2, 3], "s": [10, 20]}
+    # ensembles with m > 1 and 0 < i < m (the fair correction is non-zero), a missing member, a single valid member, an all-NaN ensemble
+    f = xr.DataArray([[[0.0, 2.0, 3.0, 5.0], [1.0, 1.5, 0.5, NAN]], [[4.0, NAN, NAN, NAN], [0.5, 1.0, 2.0, 2.5]],
+                      [[2.0, 2.0, 1.0, 0.0], [NAN, NAN, NAN, NAN]], [[1.0, 3.0, NAN, 0.0], [2.5, 0.0, 1.0, 1.0]]], dims=["t", "s", "ens"], coords=idx)
+    o = xr.DataArray([[0.5, 2.0], [3.0, 1.0], [2.0, 1.0], [NAN, 2.5]], dims=["t", "s"], coords=idx)
+    w = xr.DataArray([2.0, 0.5, 3.0, 1.0], dims=["t"], coords={"t": idx["t"]})
+    configs = [{}, {"fair_correction": False}, {"event_threshold_operator": "lt"}, {"weights": w}, {"preserve_dims": "all"}, {"reduce_dims": ["t"]},
+               {"threshold_dim": "thr"}, {"preserve_dims": ["s"], "weights": w, "fair_correction": False, "event_threshold_operator": "gt", "threshold_dim": "thr"},
+               {"reduce_dims": ["s"], "weights": w, "event_threshold_operator": "le"}]
+    names = list(ENS_DEFAULTS)
+    subsets = [s for r in range(len(names) + 1) for s in itertools.combinations(names, r)]
+    n = 0
+    for thr in ([1.0, 2.0], 1.0):
+        ts = thr if isinstance(thr, list) else [thr]
+        for cfg in configs:
+            full = dict(ENS_DEFAULTS, **cfg)
+            cache = {}
+            for omit in subsets:
+                eff = dict(full, **{k: ENS_DEFAULTS[k] for k in omit})
+                if (eff["reduce_dims"] is not None and eff["preserve_dims"] is not None):
+                    continue
+                kw = {k: (OPS[v] if k == "event_threshold_operator" else v) for k, v in full.items() if k not in omit}
+                got = core.call_impl(P.brier_score_for_ensemble, f, o, "ens", thr, **kw)
+                c = dict(fcst=f, obs=o, w=eff["weights"], ts=ts, scalar=not isinstance(thr, list), opn=eff["event_threshold_operator"], fair=eff["fair_correction"],
+                         rd=eff["reduce_dims"], pd=eff["preserve_dims"], tdim=eff["threshold_dim"], ens="ens")
+                desc = dict(desc_ens(c), omitted_arguments=list(omit), passed_explicitly=sorted(kw),
+                            documented_defaults={k: ENS_DEFAULTS[k] for k in omit})
+                ctx.case(("ens_defaults", str(thr), str(sorted(cfg)), omit))
+                n += 1
+                if got[0] != "ok":
+                    ctx.violation("brier_score_for_ensemble raises on a valid call with optional arguments omitted", desc, "values", got[1])
+                    continue
+                want = expected_dims(["t", "s"], eff, extra=[eff["threshold_dim"]])
+                if set(got[1].dims) != want:
+                    ctx.violation("brier_score_for_ensemble with optional arguments omitted: result dims differ from those of the documented defaults", desc,
+                                  sorted(want), sorted(got[1].dims))
+                    continue
+                compare_with_oracle(ctx, "brier_score_for_ensemble with optional arguments omitted differs from the exact oracle evaluated at the DOCUMENTED "
+                                    "defaults of the omitted arguments (fair_correction=True, operator.ge, threshold_dim='threshold', weights=None, all dims reduced)",
+                                    ens_oracle_array(c).rename(threshold=eff["threshold_dim"]), eff["weights"], got[1], desc)
+                key = repr(sorted((k, id(v) if isinstance(v, xr.DataArray) else v) for k, v in eff.items()))
+                if key not in cache:
+                    cache[key] = core.call_impl(P.brier_score_for_ensemble, f, o, "ens", thr,      # every optional argument written out
+                                                **{k: (OPS[v] if k == "event_threshold_operator" else v) for k, v in eff.items()})
+                ref = cache[key]
+                if ref[0] != "ok" or not same_result(got[1], ref[1]):
+                    ctx.violation("brier_score_for_ensemble: the call with optional arguments omitted differs from the call with their documented defaults "
+                                  "written out", desc, str(np.asarray(ref[1]).tolist())[:200], str(np.asarray(got[1]).tolist())[:200])
+    ctx.count("ens_defaults_calls", n)
+    # brier_score
+    fb = xr.DataArray([[0.875, 0.25], [0.5, 1.0], [0.0, 0.125], [0.75, NAN]], dims=["t", "s"], coords=idx)
+    ob = xr.DataArray([[1.0, 0.0], [1.0, 0.0], [NAN, 1.0], [0.0, 1.0]], dims=["t", "s"], coords=idx)
+    sq = xr.apply_ufunc(np.vectorize(lambda a, b: NAN if (np.isnan(a) or np.isnan(b)) else float((Fraction(float(a)) - Fraction(float(b))) ** 2)), fb, ob)
+    configs = [{}, {"weights": w}, {"preserve_dims": "all"}, {"reduce_dims": ["t"]}, {"check_args": False},
+               {"preserve_dims": ["s"], "weights": w, "check_args": False}, {"reduce_dims": ["s"], "weights": w}, {"preserve_dims": "all", "weights": w}]
+    names = list(BRIER_DEFAULTS)
+    subsets = [s for r in range(len(names) + 1) for s in itertools.combinations(names, r)]
+    n = 0
+    for cfg in configs:
+        full = dict(BRIER_DEFAULTS, **cfg)
+        for omit in subsets:
+            eff = dict(full, **{k: BRIER_DEFAULTS[k] for k in omit})
+            if (eff["reduce_dims"] is not None and eff["preserve_dims"] is not None):
+                continue
+            kw = {k: v for k, v in full.items() if k not in omit}
+            desc = {"fn": "brier_score", "fcst": gens.da_repr(fb), "obs": gens.da_repr(ob), "omitted_arguments": list(omit),
+                    "passed_explicitly": {k: (gens.da_repr(v) if isinstance(v, xr.DataArray) else v) for k, v in kw.items()},
+                    "documented_defaults": {k: BRIER_DEFAULTS[k] for k in omit}}
+            got = core.call_impl(P.brier_score, fb, ob, **kw)
+            ctx.case(("brier_defaults", str(sorted(cfg)), omit))
+            n += 1
+            if got[0] != "ok":
+                ctx.violation("brier_score raises on a valid call with optional arguments omitted", desc, "values", got[1])
+                continue
+            want = expected_dims(["t", "s"], eff)
+            if set(got[1].dims) != want:
+                ctx.violation("brier_score with optional arguments omitted: result dims differ from those of the documented defaults", desc, sorted(want), sorted(got[1].dims))
+                continue
+            compare_with_oracle(ctx, "brier_score with optional arguments omitted differs from the weighted NaN-skipping mean of (f - o)^2 evaluated at the "
+                                "DOCUMENTED defaults of the omitted arguments (weights=None, all dims reduced) (exact oracle)", sq, eff["weights"], got[1], desc)
+            ref = core.call_impl(P.brier_score, fb, ob, **eff)
+            if ref[0] != "ok" or not same_result(got[1], ref[1]):
+                ctx.violation("brier_score: the call with optional arguments omitted differs from the call with their documented defaults written out", desc,
+                              str(np.asarray(ref[1]).tolist())[:200], str(np.asarray(got[1]).tolist())[:200])
+            # check_args defaults to True: an out-of-range forecast / a non-binary observation is rejected unless check_args=False is passed
+            for what, f2, o2 in (("fcst 1.125", fb.where(fb != 0.875, 1.125), ob), ("obs 0.5", fb, ob.where(ob != 0.0, 0.5))):
+                bad = core.call_impl(P.brier_score, f2, o2, **kw)
+                if eff["check_args"] and bad != ("err", "err:ValueError"):
+                    ctx.violation("brier_score without check_args=False must reject an out-of-range forecast / non-binary observation (check_args defaults to True)",
+                                  dict(desc, invalid_value=what), "err:ValueError", str(bad[1])[:100])
+                elif not eff["check_args"] and bad[0] != "ok":
+                    ctx.violation("brier_score(check_args=False) must not validate its inputs", dict(desc, invalid_value=what), "values", bad[1])
+    ctx.count("brier_defaults_calls", n)
+
+
 def corpus(ctx):
     """deterministic repro of the defect repaired in /repo by 528852a (known_findings.d/C13.json, status fixed)"""
     P, _ = S()
@@ -638,6 +765,7 @@ def corpus(ctx):
 def run(ctx):
     corpus(ctx)
     brier_boundaries(ctx)
+    defaults_probe(ctx)
     oracle_probes(ctx)
     large_ensemble_probe(ctx)
     cell_grid(ctx)
@@ -650,6 +778,7 @@ def run_without_model(ctx):
     with the independent exact-rational oracle and relations between public calls only"""
     corpus(ctx)
     brier_boundaries(ctx)
+    defaults_probe(ctx)
     oracle_probes(ctx)
     large_ensemble_probe(ctx)
     cell_grid(ctx, use_model=False)
